@@ -379,6 +379,30 @@ def channel_history(ck):
                     fails.append({"obligation": "bounded.channel_history", "clause": "the integral of a channel does not depend on which channel was integrated before it on the same geometry object",
                                   "input": {"altitude": alt, "thrown": n, "kept": k, "calls in order": list(order), "seed": ck.seed + 303}, "observed": {"%s after the other call" % c: list(r), "%s alone" % c: list(alone[c])}})
                     break
+        # the object is reused for a second batch: throw, integrate, throw a different batch of another size, integrate again -- the second
+        # integral is the one a fresh object gives for the second batch
+        u2 = rng.uniform(0.02, 0.98, (4, n // 2 + 7))
+        g_fresh = C02.native_geom(alt, 0.3, -1.1, np.radians(limb), np.radians(th), np.radians(360.0))
+        g_used = thrown()
+        call(g_used, opt)
+        with np.errstate(all="ignore"):
+            g_fresh.throw(u2.copy())
+            g_used.throw(u2.copy())
+        m2 = g_fresh.event_mask
+        k2 = int(np.sum(m2))
+        if k2:
+            cv2 = g_fresh.costhetaTrSubV[m2]
+            opt2 = (rng.uniform(0.0, 20.0, k2), np.clip(cv2 + rng.normal(0, 2e-4, k2), -1, 1), rng.uniform(1e-4, 1e-2, k2), 10.0, 1.0, 1.0)
+            nev += 2
+            try:
+                r_used, r_fresh = call(g_used, opt2), call(g_fresh, opt2)
+                okh = np.allclose(r_used, r_fresh, rtol=1e-12, atol=0, equal_nan=True)
+                obs = {"second batch on the reused object": list(r_used), "second batch on a fresh object": list(r_fresh)}
+            except Exception as ex:
+                okh, obs = False, "raised %r" % ex
+            if not okh:
+                fails.append({"obligation": "bounded.channel_history", "clause": "an integral is a function of the batch thrown last: a geometry object that threw and integrated an earlier batch gives the same integral as a fresh one",
+                              "input": {"altitude": alt, "first batch": n, "second batch": n // 2 + 7, "seed": ck.seed + 303}, "observed": obs})
     return {"evaluations": nev, "failures": fails}
 
 
